@@ -716,6 +716,20 @@ fn fragment_values() -> Vec<String> {
         "<a x=\"]]>]]>\"/>",
         "<!--]]>]]>-->",
         "<?p ]]>]]>?>",
+        // … preceded by each proper prefix of the marker (a scanner that restarts wrongly after a
+        // partial match misses these), followed by one, and twice
+        "<!--]]]>]]>-->",
+        "<!--]]]]>]]>-->",
+        "<!--]]>]]>]]>-->",
+        "<!--]]>]]]>]]>-->",
+        "<!--]]>]]]]>]]>-->",
+        "<a x=\"]]>]]]>]]>\"/>",
+        "<!--]]>]]>]-->",
+        "<!--]]>]]>--><!--]]>]]>-->",
+        // near misses that must be sent: no marker inside
+        "<!--]]>]]]-->",
+        "<!--]]>]] >-->",
+        "<!--]]>]>]]-->",
         // not well-formed: outside the property's domain (embedded verbatim all the same)
         "<a>",
         "</config><kill-session/><config>",
